@@ -39,9 +39,7 @@ def regenerate_facts() -> tuple[bool, str]:
 
 
 def ensure_makefile():
-    mk = COQ / "Makefile"
-    if not mk.exists() or mk.stat().st_mtime < (COQ / "_CoqProject").stat().st_mtime:
-        sh(["coq_makefile", "-f", "_CoqProject", "-o", "Makefile"], cwd=COQ)
+    sh([str(VERIF / "bin" / "mkcoqproject")])
 
 
 def build(target: str, timeout=1500) -> tuple[bool, str]:
